@@ -59,6 +59,7 @@ func vCorpusBatchD() ([]index.Document, *sSpec) {
 	cfg := vCorpusCfgA()
 	cfg.allWide = true
 	cfg.fields[1].terms = []string{vLongTerm}
+	cfg.valLens = []int{2, 3} // (stored values of 2 and 3 bytes: the second value of a document starts at offset 2)
 	return vGenBatch(cfg)
 }
 
